@@ -348,6 +348,8 @@ pub fn parse_choice_text(input: &str) -> Result<ParsedChoiceText, CompilerError>
             raw_after_label.trim_start()
         };
         let (choice_only_text, choice_only_tags) = split_text_and_tags(&label)?;
+        // Empty brackets (`* [] text`) hold nothing that could be shown in the choice only.
+        let has_choice_only_content = !choice_only_text.is_empty() || !choice_only_tags.is_empty();
         if after_label.is_empty() || after_label.starts_with("->") {
             let inline_target = after_label
                 .strip_prefix("->")
@@ -360,7 +362,7 @@ pub fn parse_choice_text(input: &str) -> Result<ParsedChoiceText, CompilerError>
                 start_text: String::new(),
                 choice_only_text,
                 has_start_content: false,
-                has_choice_only_content: true,
+                has_choice_only_content,
                 inline_target,
                 inline_body_nodes: Vec::new(),
                 start_tags: Vec::new(),
@@ -377,7 +379,7 @@ pub fn parse_choice_text(input: &str) -> Result<ParsedChoiceText, CompilerError>
             start_text: String::new(),
             choice_only_text,
             has_start_content: false,
-            has_choice_only_content: true,
+            has_choice_only_content,
             inline_target,
             inline_body_nodes: Vec::new(),
             start_tags: Vec::new(),
@@ -470,13 +472,14 @@ pub fn parse_choice_text(input: &str) -> Result<ParsedChoiceText, CompilerError>
         let selected_text = format!("{start_text}{end_text}");
         let mut selected_tags = start_tags.clone();
         selected_tags.extend(end_tags);
+        let has_choice_only_content = !choice_only_text.is_empty() || !choice_only_tags.is_empty();
         return Ok(ParsedChoiceText {
             display_text: display,
             selected_text: Some(selected_text),
             start_text,
             choice_only_text,
             has_start_content: !start.trim().is_empty(),
-            has_choice_only_content: true,
+            has_choice_only_content,
             inline_target,
             inline_body_nodes: Vec::new(),
             start_tags,
